@@ -88,7 +88,7 @@ type leaf struct {
 	wantErr  bool          // LogError reaches the sink
 	async    bool          // ring buffered: may drop, must report
 	dropped  *droppedCounter
-	ring     int // ring-buffered: capacity of the ring
+	ring     int   // ring-buffered: capacity of the ring
 	since    int64 // logical time from which the leaf is a member (0 = from the start); before joinBegin: must not receive
 	joinFrom int64 // logical time at which the Append that added it began
 }
